@@ -368,6 +368,15 @@ impl Response {
                 conn.flush().await.expect("Failed to flush connection");
 
                 while let Some(chunk) = stream.next().await {
+                    // CRLF and lone CR are line breaks in an event stream just like LF.
+                    // Left as they are, a CR would end the `data` line at the client,
+                    // so that the rest of the line is parsed as a field of its own.
+                    let chunk = if chunk.contains('\r') {
+                        chunk.replace("\r\n", "\n").replace('\r', "\n")
+                    } else {
+                        chunk
+                    };
+
                     let mut message = Vec::with_capacity(
                         /* capacity for a single line */
                         "data: ".len() + chunk.len() + "\n\n".len()
